@@ -896,9 +896,9 @@ Qed.
 (** * Agreement of the implementation with the model entails the specification *)
 
 Theorem match_agree_spec_ok f o ob :
-  match_agrees f o ob = true -> match_spec_ok f o ob = true.
+  match_agrees f o ob = true -> match_spec_strict f o ob = true.
 Proof.
-  unfold match_spec_ok.
+  unfold match_spec_strict.
   destruct (o_data o) as [c|] eqn:Hd.
   - destruct (rset_ok f c) eqn:Hb; [|intros H; exact H].
     intros Ha. unfold match_agrees, match_top in Ha. rewrite Hd in Ha.
@@ -944,9 +944,9 @@ Proof.
 Qed.
 
 Theorem filter_agree_spec_ok q os ob :
-  filter_agrees q os ob = true -> filter_spec_ok q os ob = true.
+  filter_agrees q os ob = true -> filter_spec_strict q os ob = true.
 Proof.
-  destruct q as [f|]; unfold filter_spec_ok.
+  destruct q as [f|]; unfold filter_spec_strict.
   2:{ intros Ha. unfold filter_agrees in Ha. cbn [filter_objs] in Ha. destruct ob; try discriminate. exact Ha. }
   destruct (forallb (obj_rset_ok f) os) eqn:Hall; [|intros H; exact H].
   intros Ha. unfold filter_agrees in Ha. cbn [filter_objs] in Ha.
@@ -969,6 +969,208 @@ Proof.
   - destruct ob; try discriminate.
     destruct Hinv as [o [Hin Hm]]. apply existsb_exists. exists o. split; [exact Hin|].
     apply match_top_panic_iff in Hm. unfold obj_nil. rewrite Hm. reflexivity.
+Qed.
+
+(** * The relaxed (three-valued) specification
+
+    The strict boolean specification is one of the readings the three-valued one
+    admits; so whatever meets the strict one meets the relaxed one, in particular
+    the model of the unchanged code, on every input. *)
+
+Lemma tv_of_bool_admits b : admits (tv_of_bool b) b = true.
+Proof. destruct b; reflexivity. Qed.
+
+Lemma and3_admits a b x y :
+  admits a x = true -> admits b y = true -> admits (and3 a b) (x && y) = true.
+Proof. destruct a, b, x, y; simpl; intros; congruence. Qed.
+
+Lemma or3_admits a b x y :
+  admits a x = true -> admits b y = true -> admits (or3 a b) (x || y) = true.
+Proof. destruct a, b, x, y; simpl; intros; congruence. Qed.
+
+Lemma forall3_admits {A} (g : A -> tv3) (h : A -> bool) l :
+  (forall x, In x l -> admits (g x) (h x) = true) -> admits (forall3 g l) (forallb h l) = true.
+Proof.
+  induction l as [|x l IH]; intros H; [reflexivity|].
+  cbn [forall3 forallb]. apply and3_admits; [apply H; left; reflexivity|].
+  apply IH. intros y Hy. apply H. right. exact Hy.
+Qed.
+
+Lemma exists3_admits {A} (g : A -> tv3) (h : A -> bool) l :
+  (forall x, In x l -> admits (g x) (h x) = true) -> admits (exists3 g l) (existsb h l) = true.
+Proof.
+  induction l as [|x l IH]; intros H; [reflexivity|].
+  cbn [exists3 existsb]. apply or3_admits; [apply H; left; reflexivity|].
+  apply IH. intros y Hy. apply H. right. exact Hy.
+Qed.
+
+Lemma time_range3_admits s e c : admits (time_range3 s e c) (rfc4791_time_range s e c) = true.
+Proof. unfold time_range3. destruct (is_event c); [apply tv_of_bool_admits | reflexivity]. Qed.
+
+Lemma holds3_admits f : forall c, admits (holds3 f c) (rfc4791_holds f c) = true.
+Proof.
+  induction f as [name nd s e props comps IH] using comp_filter_ind'.
+  intros c. unfold rfc4791_holds. cbn [holds3 holds_with].
+  rewrite <- Bool.andb_assoc. apply and3_admits.
+  - destruct (has_range s e); [apply time_range3_admits | reflexivity].
+  - apply and3_admits; [|apply tv_of_bool_admits].
+    apply forall3_admits. intros cf Hcf. destruct (cf_nd cf); [apply tv_of_bool_admits|].
+    apply exists3_admits. intros ch _. destruct (named (cf_name cf) ch); [|reflexivity].
+    cbn [andb]. rewrite Forall_forall in IH. apply (IH cf Hcf).
+Qed.
+
+Theorem rfc3_admits f c : admits (rfc3_comp f c) (rfc4791_comp f c) = true.
+Proof.
+  unfold rfc3_comp, rfc4791_comp, rfc4791_scope, scope3, scope_with.
+  destruct (cf_nd f); [apply tv_of_bool_admits|].
+  apply exists3_admits. intros ch _. destruct (named (cf_name f) ch); [|reflexivity].
+  cbn [andb]. apply holds3_admits.
+Qed.
+
+(** where every time range of the query meets events only, nothing is relaxed *)
+Lemma and3_bool a b : and3 (tv_of_bool a) (tv_of_bool b) = tv_of_bool (a && b).
+Proof. destruct a, b; reflexivity. Qed.
+Lemma or3_bool a b : or3 (tv_of_bool a) (tv_of_bool b) = tv_of_bool (a || b).
+Proof. destruct a, b; reflexivity. Qed.
+
+Lemma forall3_bool {A} (g : A -> tv3) (h : A -> bool) l :
+  (forall x, In x l -> g x = tv_of_bool (h x)) -> forall3 g l = tv_of_bool (forallb h l).
+Proof.
+  induction l as [|x l IH]; intros H; [reflexivity|].
+  cbn [forall3 forallb]. rewrite (H x) by (left; reflexivity).
+  change (forall3 g l) with (forall3 g l). rewrite IH by (intros y Hy; apply H; right; exact Hy).
+  apply and3_bool.
+Qed.
+
+Lemma exists3_bool {A} (g : A -> tv3) (h : A -> bool) l :
+  (forall x, In x l -> g x = tv_of_bool (h x)) -> exists3 g l = tv_of_bool (existsb h l).
+Proof.
+  induction l as [|x l IH]; intros H; [reflexivity|].
+  cbn [exists3 existsb]. rewrite (H x) by (left; reflexivity).
+  rewrite IH by (intros y Hy; apply H; right; exact Hy).
+  apply or3_bool.
+Qed.
+
+Definition events_only (f : comp_filter) (c : comp) : Prop :=
+  forall tc, In tc (tr_pairs f c) -> is_event (snd tc) = true.
+
+Lemma holds3_exact f : forall c,
+  named (cf_name f) c = true -> cf_nd f = false -> events_only f c ->
+  holds3 f c = tv_of_bool (rfc4791_holds f c).
+Proof.
+  induction f as [name nd s e props comps IH] using comp_filter_ind'.
+  intros c Hn Hnd Hev. cbn [cf_name cf_nd] in Hn, Hnd. subst nd. unfold named in Hn.
+  unfold rfc4791_holds. cbn [holds3 holds_with].
+  assert (Ht : (if has_range s e then time_range3 s e c else T3)
+               = tv_of_bool (if has_range s e then rfc4791_time_range s e c else true)).
+  { destruct (has_range s e) eqn:Hhas; [|reflexivity].
+    unfold time_range3.
+    assert (Hc : is_event c = true).
+    { apply (Hev ((s, e), c)). cbn [tr_pairs]. rewrite Hn, Hhas. left. reflexivity. }
+    rewrite Hc. reflexivity. }
+  rewrite Ht.
+  rewrite (forall3_bool _ (fun cf =>
+             if cf_nd cf then negb (existsb (named (cf_name cf)) (c_children c))
+             else existsb (fun ch => named (cf_name cf) ch && holds_with rfc4791_time_range cf ch) (c_children c))).
+  - rewrite !and3_bool, Bool.andb_assoc. reflexivity.
+  - intros cf Hcf. destruct (cf_nd cf) eqn:Hcnd; [reflexivity|].
+    apply exists3_bool. intros ch Hch. destruct (named (cf_name cf) ch) eqn:Hnm; [|reflexivity].
+    cbn [andb]. rewrite Forall_forall in IH. apply (IH cf Hcf); [exact Hnm | exact Hcnd |].
+    intros tc Htc. apply Hev. cbn [tr_pairs]. rewrite Hn. cbn [negb orb].
+    apply in_or_app. right. apply in_flat_map. exists cf. split; [exact Hcf|].
+    apply in_flat_map. exists ch. split; assumption.
+Qed.
+
+Theorem rfc3_exact f c : events_only f c -> rfc3_comp f c = tv_of_bool (rfc4791_comp f c).
+Proof.
+  intros Hev. unfold rfc3_comp, rfc4791_comp, rfc4791_scope, scope3, scope_with.
+  destruct (cf_nd f) eqn:Hnd; [reflexivity|].
+  cbn [exists3 existsb]. rewrite Bool.orb_false_r.
+  destruct (named (cf_name f) c) eqn:Hn; [|reflexivity].
+  cbn [andb]. rewrite (holds3_exact f c Hn Hnd Hev). unfold rfc4791_holds.
+  destruct (holds_with rfc4791_time_range f c); reflexivity.
+Qed.
+
+Theorem relaxed_is_strict_on_events f c b :
+  events_only f c -> admits (rfc3_comp f c) b = Bool.eqb b (rfc4791_comp f c).
+Proof. intros H. rewrite rfc3_exact by exact H. destruct b, (rfc4791_comp f c); reflexivity. Qed.
+
+(** the strict verdict implies the relaxed one *)
+Theorem match_strict_relaxed f o ob : match_spec_strict f o ob = true -> match_spec_ok f o ob = true.
+Proof.
+  unfold match_spec_strict, match_spec_ok.
+  destruct (o_data o) as [c|]; [|intros H; exact H].
+  destruct (rset_ok f c); [|intros H; exact H].
+  destruct ob as [b| |]; intros H; [| |exact H].
+  - apply Bool.eqb_prop in H. subst b. apply rfc3_admits.
+  - unfold err_allowed. rewrite H. reflexivity.
+Qed.
+
+Lemma obj_verdict3_admits f o : admits (obj_verdict3 f o) (obj_matches f o) = true.
+Proof. unfold obj_verdict3, obj_matches. destruct (o_data o); [apply rfc3_admits | reflexivity]. Qed.
+
+Lemma sel_ok_strict f os : forall tags,
+  ln_eqb (map o_tag (filter (obj_matches f) os)) tags = true -> sel_ok f os tags = true.
+Proof.
+  induction os as [|o os IH]; intros tags H; cbn [filter map sel_ok] in *.
+  - destruct tags; [reflexivity | discriminate].
+  - pose proof (obj_verdict3_admits f o) as Ha.
+    destruct (obj_matches f o) eqn:Hm.
+    + cbn [map ln_eqb] in H. destruct tags as [|t tags']; [discriminate|].
+      cbn [ln_eqb] in H. apply Bool.andb_true_iff in H. destruct H as [Ht Hr].
+      rewrite N.eqb_sym in Ht. rewrite Ht, Ha, (IH tags' Hr). reflexivity.
+    + destruct tags as [|t tags'].
+      * rewrite Ha, (IH [] H). reflexivity.
+      * rewrite Ha, (IH (t :: tags') H). cbn [andb]. apply Bool.orb_true_r.
+Qed.
+
+Lemma existsb_impl {A} (p q : A -> bool) l :
+  (forall x, p x = true -> q x = true) -> existsb p l = true -> existsb q l = true.
+Proof.
+  intros H. rewrite !existsb_exists. intros [x [Hin Hp]]. exists x. split; [exact Hin | apply H; exact Hp].
+Qed.
+
+Theorem filter_strict_relaxed q os ob : filter_spec_strict q os ob = true -> filter_spec_ok q os ob = true.
+Proof.
+  unfold filter_spec_strict, filter_spec_ok.
+  destruct q as [f|]; [|intros H; exact H].
+  destruct (forallb (obj_rset_ok f) os); [|intros H; exact H].
+  destruct ob as [tags unmod| |]; intros H; [| |exact H].
+  - apply Bool.andb_true_iff in H. destruct H as [H1 H2]. rewrite (sel_ok_strict f os tags H1), H2. reflexivity.
+  - revert H. apply existsb_impl. intros o. unfold obj_unreadable, obj_err_allowed, err_allowed.
+    destruct (o_data o); [|discriminate]. intros ->. reflexivity.
+Qed.
+
+(** C06_agree_implies_spec_ok, C06_filter_agree_implies_spec_ok *)
+Theorem match_agree_relaxed f o ob : match_agrees f o ob = true -> match_spec_ok f o ob = true.
+Proof. intros H. apply match_strict_relaxed, match_agree_spec_ok. exact H. Qed.
+
+Theorem filter_agree_relaxed q os ob : filter_agrees q os ob = true -> filter_spec_ok q os ob = true.
+Proof. intros H. apply filter_strict_relaxed, filter_agree_spec_ok. exact H. Qed.
+
+(** the model of the unchanged code meets the relaxed specification on every input
+    ([Err 0] is the model's "the oracle data do not tell", never a Go outcome) *)
+Theorem model_meets_relaxed f o :
+  match_top f o <> Err 0 -> match_spec_ok f o (mobs_of_res (match_top f o)) = true.
+Proof.
+  intros H. apply match_agree_relaxed. unfold match_agrees.
+  destruct (match_top f o) as [b|code|]; cbn [mobs_of_res].
+  - apply Bool.eqb_reflx.
+  - destruct (N.eqb code 0) eqn:E; [|reflexivity]. apply N.eqb_eq in E. subst. congruence.
+  - reflexivity.
+Qed.
+
+Lemma ln_eqb_refl' a : ln_eqb a a = true.
+Proof. apply ln_eqb_refl. Qed.
+
+Theorem filter_model_meets_relaxed q os :
+  filter_objs q os <> Err 0 -> filter_spec_ok q os (fobs_of_res (filter_objs q os)) = true.
+Proof.
+  intros H. apply filter_agree_relaxed. unfold filter_agrees.
+  destruct (filter_objs q os) as [l|code|]; cbn [fobs_of_res].
+  - rewrite ln_eqb_refl. reflexivity.
+  - destruct (N.eqb code 0) eqn:E; [|reflexivity]. apply N.eqb_eq in E. subst. congruence.
+  - reflexivity.
 Qed.
 
 (** * The executable specification means what section 9.7 says *)
